@@ -300,7 +300,8 @@ class ASTRewriter(ast.NodeTransformer):
 
             if target.startswith("__") and target not in self.env:
                 orelse_inner = ast.Name(id=target[2:])
-            elif target[0 : len("_iftarg")] == "_iftarg":
+            elif target.startswith("_iftarg") or target.startswith("_ifpre"):
+                # Test and alias of an if nested in this else branch
                 if_l.append(b)
                 continue
             else:
